@@ -23,7 +23,6 @@ NA = {
     "C01": "whole-pipeline property: interpret_ir could not be symbolically executed (2 h / >5 GB without leaving IndexedQuery construction; EdgeExpander / collect_fold_elements alone >10 min); value-level filter semantics are decided under C07",
     "C02": "quantifies over pull schedules of the boxed iterator tower; same obstacle as C01 and Kani cannot make the interleaving symbolic without executing the pipeline",
     "C03": "needs the pipeline executed with a counting source; same obstacle as C01",
-    "C04": "the hint constructors take BTreeMaps / boxed DataContext iterators: one operator per harness did not finish in 5-7 min (measured); end-to-end statement needs the pipeline. The candidate algebra they rely on is decided under C06",
     "C05": "relates required_properties() (HashSet walk over IndexedQuery) to resolve_property calls made by the pipeline; needs pipeline execution",
     "C10": "input is arbitrary text through a pest-generated parser into HashMap-backed AST and Schema; orders of magnitude beyond what did not finish for a 1-vertex hand-built IR",
     "C11": "quantifies over frontend outputs; same obstacle as C10",
@@ -43,7 +42,7 @@ NA = {
 def main():
     props = [json.loads(l) for l in open(os.path.join(HERE, "properties.jsonl"))]
     ids = [p["id"] for p in props]
-    assert set(PROPS) | set(NA) == set(ids) and not (set(PROPS) & set(NA)), (set(ids) - set(PROPS) - set(NA))
+    assert set(PROPS) | set(NA) | {"C04"} == set(ids) and not (set(PROPS) & set(NA)), (set(ids) - set(PROPS) - set(NA))
     hook_commits = subprocess.run(["git", "-C", "/repo", "log", "--format=%h %s"], capture_output=True, text=True).stdout.splitlines()
     hooks = [l.split()[0] for l in hook_commits if l.split(" ", 1)[1].startswith("verif hooks")]
     checks = []
@@ -61,9 +60,21 @@ def main():
                           + " | Outside the claim: " + PROPS[pid]["outside"] + " | Trusted: kani-compiler, CBMC, CaDiCaL; harness-side reference definitions (src/refmodel.rs, tyshape.rs, c06.rs member()); stubs: std::fmt::format",
             "technique": TECH,
         })
+    checks.append({
+        "property_id": "C04",
+        "quick_cmd": "python3 c04_mir.py --tier quick",
+        "thorough_cmd": "python3 c04_mir.py --tier thorough",
+        "evidence_file": "/verif/evidence/C04.json",
+        "replay_cmd_template": "python3 c04_mir.py --replay {path}",
+        "engine": "mir-smt",
+        "level_claimed": {"category": "model_checking", "text": "Kernel-level only (dynamic hints): for each filter operator, the closure that hints/dynamic.rs builds to turn a resolved tag value into a candidate (compute_candidate_from_operation and resolve_fold_specific_field, plus Range::with_start / with_end), executed symbolically from rustc's MIR, never excludes a value that passes the filter - for every tag value, probe value and initial candidate; decided by z3 and cross-checked by cvc5. The static constructor, mandatory-edge classification and the end-to-end statement are not claimed.", "design_ref": "DESIGN.md section 5 C04"},
+        "level_note": "Bounds: every integer tag / probe in [-2^63, 2^64) (integers standing for any totally ordered scalar kind), null probes, null tags for = and !=, one_of tags of 2 elements (0..=4 thorough) with nulls anywhere; one filter per hint; arbitrary initial candidate (uninterpreted predicate) | Outside the claim: hints/filters.rs (static candidates, fold_requires_at_least_one_element: Kani probes do not finish), non-binding filters, EdgeInfo::is_mandatory, the pruning-adapter == plain-adapter statement; counterexamples in resolve_fold_specific_field cannot be replayed natively (no entry point without a pipeline) and are reported as inconclusive (exit 2), not as VIOLATION | Trusted: rustc nightly MIR dump, the MIR interpreter in c04_mir.py (validated on every run against the real function on 100+ concrete cases), z3, cvc5; callee summaries for intersect / exclude_single_value (the laws decided by C06) and clone / as_slice / to_vec",
+        "technique": "symbolic execution of rustc MIR (own interpreter) to SMT-LIB2, decided by z3 4.8.12 and cvc5 1.0; counterexamples replayed natively against the real function",
+    })
+    checks.sort(key=lambda c: c["property_id"])
     m = {
         "version": 1,
-        "setup_cmd": "cp -f /repo/Cargo.lock /verif/harness/Cargo.lock && cd /verif/harness && (CARGO_NET_OFFLINE=true cargo kani --target-dir target/kani --only-codegen -Z unstable-options -Z stubbing --harness c18::quick::bool_identity >/dev/null 2>&1 || true)",
+        "setup_cmd": "cp -f /repo/Cargo.lock /verif/harness/Cargo.lock && cd /verif/harness && (CARGO_NET_OFFLINE=true cargo kani --target-dir target/kani --only-codegen -Z unstable-options -Z stubbing --harness c18::quick::bool_identity >/dev/null 2>&1 || true) && (cd /verif && C04_PREBUILD=1 python3 c04_mir.py >/dev/null 2>&1 || true)",
         "hooks": {
             "guard": "cargo feature `trustfall_verif` of trustfall_core (off by default; nothing is compiled without it)",
             "enable": "/verif/harness depends on /repo/trustfall_core by path with features=[\"trustfall_verif\"]; every check rebuilds it from the working tree with cargo kani",
@@ -72,6 +83,9 @@ def main():
             "add_only": True,
         },
         "engines": [{
+            "name": "mir-smt", "path": "/verif/c04_mir.py", "serves_properties": ["C04"],
+            "kind_free_text": "rustc nightly -Zunpretty=mir dump of trustfall_core (regenerated from /repo's working tree on every run) -> small symbolic MIR interpreter -> SMT-LIB2 -> z3 + cvc5; native replay through the harness crate's c04_native test",
+        }, {
             "name": "kani", "path": "/verif/harness", "serves_properties": sorted(PROPS),
             "kind_free_text": "Kani 0.68 proof harnesses (rustc MIR -> goto -> CBMC 6.11 + CaDiCaL) over trustfall_core compiled from /repo's working tree; driver /verif/check parses Kani's JSON export, enforces vacuity witnesses, replays counterexamples natively",
         }],
